@@ -21,6 +21,8 @@ X = [6524834.0, 686297.0, 2650.0 * 1000, -4901.0, 5533.0, -1976.0]
 REF = [7000e3, -1200e3, 300e3, 1000.0, 7000.0, 2500.0]
 STATIONS = [(43.604482, 1.443962, 172.0), (-33.9, 151.2, 20.0), (5.25, -52.8, 12.0)]
 TOL = 1e-12
+REPO_DIR = ["/repo"]
+JPL_LOADED = [False]
 
 
 KEEP = ("EME2000", "ITRF", "GCRF", "TOD")
@@ -42,7 +44,12 @@ def observe(frames, roundtrip=True):
                     continue
                 back = r.copy(frame=frames[a])
                 d = np.asarray(back) - np.asarray(sv)
-                if np.linalg.norm(d[:3]) > 1e-5 or np.linalg.norm(d[3:]) > 1e-8:
+                # float resolution of the coordinates in the far frame (a state seen from Mars is 2e11 m away: 4e-5 m)
+                mag_p, mag_v = float(np.linalg.norm(np.asarray(r)[:3])), float(np.linalg.norm(np.asarray(r)[3:]))
+                if JPL_LOADED[0]:
+                    # chains may run through heliocentric offsets (3e11 m, 5e4 m/s) even when both ends are near the Earth
+                    mag_p, mag_v = max(mag_p, 3e11), max(mag_v, 5e4)
+                if np.linalg.norm(d[:3]) > 1e-5 + 2e-15 * mag_p or np.linalg.norm(d[3:]) > 1e-8 + 2e-15 * mag_v:
                     errs.append({"pair": f"{a}>{b}", "what": "round trip a->b->a not identity",
                                  "dpos": float(np.linalg.norm(d[:3])), "dvel": float(np.linalg.norm(d[3:]))})
             except Exception as e:  # unconnected / unknown conversion: a contract violation here
@@ -89,8 +96,20 @@ def run_behaviour(acts, baseline, tag, short=None):
         if act["op"] == "observe":
             check_obs(step)
             continue
+        if act["op"] == "loadjpl":
+            from pathlib import Path
+            d_ = Path(REPO_DIR[0]) / "tests" / "data" / "jpl"
+            config.set("env", "jpl", "files", [str(d_ / "de403_2000-2020.bsp"), str(d_ / "pck00010.tpc"), str(d_ / "gm_de431.tpc")])
+            from beyond.env import jpl
+            jpl.create_frames()
+            JPL_LOADED[0] = True
+            for nm_ in ("Mars", "SolarSystemBarycenter"):
+                frames[nm_] = fr.get_frame(nm_)
+                ids.append(nm_)
+            continue
         # frame names are user input: long unique names, or one-character names (every behaviour runs in its own process)
-        name = f"{tag}n{len(ids) + 1}" if short is None else short[len(ids) - len(ORIENT)]
+        ncreated = sum(1 for n_ in ids if n_ not in ORIENT and n_ not in ("Mars", "SolarSystemBarycenter"))
+        name = f"{tag}n{len(ids) + 1}" if short is None else short[ncreated]
         if act["op"] == "station":
             f = create_station(name, STATIONS[nst % len(STATIONS)], parent_frame=frames[ids[act["parent"] - 1]])
             nst += 1
@@ -111,6 +130,7 @@ def run_behaviour(acts, baseline, tag, short=None):
 def main(inp, outp):
     with open(inp) as fh:
         job = json.load(fh)
+    REPO_DIR[0] = job.get("repo", "/repo")
     base_frames = {n: fr.get_frame(n) for n in ORIENT}
     baseline, errs = observe(base_frames)
     total = {"violations": [{"key": "registry/builtin", "what": str(e), "data": e} for e in errs],
